@@ -325,7 +325,8 @@ func checkC07(ctx *Ctx) {
 		spawned := 0
 		for i, c := range cases {
 			got := outs[i]
-			if spawned < 40 && i%(len(cases)/40+1) == 0 {
+			if spawned < 40 && i%(len(cases)/40+1) == 0 && !strings.ContainsRune(strings.Join(c.argv, ""), 0) {
+				// (an argument with a NUL byte cannot be passed to a process)
 				sp := cliSpawn(c.argv)
 				spawned++
 				if sp.Code != got.Code || sp.Out != got.Out {
